@@ -61,6 +61,18 @@ class Lock:
         self.f.close()
 
 
+def _big_stack():
+    """Child processes get the largest stack the hard limit allows: the extracted models are ordinary (non
+    tail-recursive) structural recursions over `list`, and a case with a multi-megabyte byte string would otherwise
+    end in OCaml's Stack_overflow (C11 `bigout` with the 8 MiB default frame limit in the thorough tier)."""
+    import resource
+    try:
+        soft, hard = resource.getrlimit(resource.RLIMIT_STACK)
+        resource.setrlimit(resource.RLIMIT_STACK, (hard, hard))
+    except Exception:
+        pass
+
+
 def sh(cmd, cwd=None, env=None, timeout=None, input=None):
     """Run cmd in its own session; on timeout the whole process group is killed (a grandchild holding the output
     pipe would otherwise block the reader forever) and whatever was printed so far is returned with rc 124."""
@@ -70,7 +82,8 @@ def sh(cmd, cwd=None, env=None, timeout=None, input=None):
         e.update(env)
     t0 = time.time()
     p = subprocess.Popen(cmd, cwd=cwd, env=e, stdout=subprocess.PIPE, stderr=subprocess.STDOUT,
-                         stdin=subprocess.PIPE if input is not None else None, start_new_session=True)
+                         stdin=subprocess.PIPE if input is not None else None, start_new_session=True,
+                         preexec_fn=_big_stack)
     try:
         out, _ = p.communicate(input=input, timeout=timeout)
         return p.returncode, out.decode('utf-8', 'replace'), time.time() - t0
